@@ -1,1 +1,4 @@
-
+import Driver.SExp
+import Driver.Decode
+import Driver.FilterEng
+import Driver.CacheEng
